@@ -24,6 +24,10 @@ pub struct Weights {
     /// weight of Apply::Immediate against 4 for Echo
     pub immediate: u32,
     pub max_ts: u8,
+    pub rogue_commit: u32,
+    pub rogue_proposal: u32,
+    pub rogue_msg: u32,
+    pub replay: u32,
 }
 
 impl Default for Weights {
@@ -46,6 +50,10 @@ impl Default for Weights {
             restart: 0,
             immediate: 1,
             max_ts: 5,
+            rogue_commit: 0,
+            rogue_proposal: 0,
+            rogue_msg: 0,
+            replay: 0,
         }
     }
 }
@@ -143,6 +151,32 @@ pub fn op_strategy(w: &Weights) -> BoxedStrategy<Op> {
             .boxed(),
     ));
     v.push((w.restart, m.prop_map(|m| Op::Restart { m }).boxed()));
+    {
+        use crate::rogue::{RogueCommit as C, RogueProposal as P};
+        let ck = prop::sample::select(vec![
+            C::Add, C::Remove, C::GceRename, C::GceSelfPromote, C::SelfUpdate, C::ForeignIdentity, C::Mixed, C::PendingByRef, C::Empty,
+        ]);
+        v.push((
+            w.rogue_commit,
+            (m, ck, ts.clone(), any::<u16>())
+                .prop_map(|(m, kind, ts, target)| Op::RogueCommit { m, kind, ts, target })
+                .boxed(),
+        ));
+        let pk = prop::sample::select(vec![P::Remove, P::Remove, P::Add, P::GceRename, P::SelfUpdate]);
+        v.push((
+            w.rogue_proposal,
+            (m, pk, ts.clone(), any::<u16>())
+                .prop_map(|(m, kind, ts, target)| Op::RogueProposal { m, kind, ts, target })
+                .boxed(),
+        ));
+        v.push((
+            w.rogue_msg,
+            (m, 0u8..3, 0u8..4, any::<u16>(), 0u8..3)
+                .prop_map(|(m, pubkey_sel, id_sel, sel, kind)| Op::RogueMsg { m, pubkey_sel, id_sel, sel, kind })
+                .boxed(),
+        ));
+        v.push((w.replay, (m, any::<u16>()).prop_map(|(m, sel)| Op::Replay { m, sel }).boxed()));
+    }
     let v: Vec<(u32, BoxedStrategy<Op>)> = v.into_iter().filter(|(w, _)| *w > 0).collect();
     proptest::strategy::Union::new_weighted(v).boxed()
 }
@@ -223,4 +257,12 @@ pub fn plan_strategy(
     (setup_strategy(o), prop::collection::vec(op_strategy(w), len))
         .prop_map(|(setup, ops)| Plan { setup, ops })
         .boxed()
+}
+
+pub fn plan_strategy_with(
+    o: &SetupOpts,
+    w: &Weights,
+    len: std::ops::Range<usize>,
+) -> BoxedStrategy<Plan> {
+    plan_strategy(o, w, len)
 }
